@@ -40,27 +40,38 @@ enum { XV_IO_SEND = 1, XV_IO_RECEIVE = 2 };
 struct xv_sub {
     int st;                         /* typestate                                                                        */
     int kind;                       /* XV_K_UX / XV_K_TLS: from the protocol it was created with                        */
-    struct xcm_socket *parent;      /* parent handed to init                                                            */
     long closes, cleanups;          /* close / cleanup calls made on it                                                 */
     long tries;                     /* connect / server / accept calls made on it                                       */
     int op_rv, op_errno;            /* ... result of the last one                                                       */
     long op_seq;                    /* ... its position in the global order of such calls                               */
     char addr0;                     /* ... first character of the address it was given (connect, server)                */
-    struct xcm_socket *from;        /* ... server sub-socket it accepted from (accept)                                  */
+    int from_kind;                  /* ... kind of the server sub-socket it accepted from (accept).  (Not the pointer: a pointer-valued
+                                       ghost field ASSUMED equal to an argument silently cut the paths through the second accept.) */
     long updates; int upd_cond;     /* update calls; the socket's condition when the last one ran                       */
     long fins; int fin_rv, fin_errno; /* finish calls; result of the last one                                           */
 };
 #define XS(p) ((struct xv_sub *)((uint8_t *)(p) + sizeof(struct xcm_socket)))
 #define SUB_SIZE (sizeof(struct xcm_socket) + sizeof(struct xv_sub))
 
-/* accounting over ALL sub-sockets of the process */
-long xv_sub_created;        /* xcm_tp_socket_create calls                                                              */
-long xv_sub_destroyed;      /* xcm_tp_socket_destroy calls on a sub-socket                                              */
-long xv_sub_owing;          /* sub-sockets in state INIT or LIVE: they owe a close                                      */
-long xv_sub_live;           /* sub-sockets in state LIVE                                                                */
-long xv_sub_leaked;         /* sub-sockets destroyed while INIT or LIVE: their resources can never be released any more */
-long xv_op_seq;             /* connect / server / accept calls so far                                                   */
-int xv_won_kind;            /* kind of the sub-socket whose connect / server / accept succeeded last                    */
+/* accounting over ALL sub-sockets of the process (one object, so that it is ONE assigns target of the ladders: DFCC checks every
+ * callee target against every caller target, and utls_server went from 1.8M to ... variables by this alone) */
+struct xv_acc {
+    long created;           /* xcm_tp_socket_create calls                                                              */
+    long destroyed;         /* xcm_tp_socket_destroy calls on a sub-socket                                              */
+    long owing;             /* sub-sockets in state INIT or LIVE: they owe a close                                      */
+    long live;              /* sub-sockets in state LIVE                                                                */
+    long leaked;            /* sub-sockets destroyed while INIT or LIVE: their resources can never be released any more */
+    long op_seq;            /* connect / server / accept calls so far                                                   */
+    int won_kind;           /* kind of the sub-socket whose connect / server / accept succeeded last                    */
+} xv_acc;
+#define xv_sub_created xv_acc.created
+#define xv_sub_destroyed xv_acc.destroyed
+#define xv_sub_owing xv_acc.owing
+#define xv_sub_live xv_acc.live
+#define xv_sub_leaked xv_acc.leaked
+#define xv_op_seq xv_acc.op_seq
+#define xv_won_kind xv_acc.won_kind
+struct xcm_socket *xv_init_parent_ux, *xv_init_parent_tls;  /* parent handed to the last init of a UX / of a TLS sub-socket */
 
 /* the last send / receive on a sub-socket */
 long xv_io_calls; int xv_io_op; struct xcm_socket *xv_io_sock; const void *xv_io_buf; size_t xv_io_len; int xv_io_ret; int xv_io_errno;
@@ -72,16 +83,26 @@ long xv_mm_calls; size_t xv_mm_ret; struct xcm_socket *xv_mm_sock;
 /* never assigned: shape of the socket the function under proof is given */
 struct xcm_tp_proto *xv_proto_ux, *xv_proto_tls;    /* the registered "ux" and "tls" protocols                          */
 
-/* addresses (xcm_addr.c, common_tp.c: other modules) */
-const char *xv_addr_ptr; size_t xv_addr_len;    /* the TLS address string produced last: where, how long                */
-int xv_addr_rv, xv_addr_errno;                  /* result of the last utls->tls / utls parse                             */
-size_t xv_uxaddr_len;                           /* length of the UX address produced last                                */
+/* addresses (xcm_addr.c, common_tp.c: other modules); one object for the same reason */
+struct xv_adr {
+    const char *ptr; size_t len;    /* the TLS address string produced last: where, how long                            */
+    int rv, err;                    /* result of the last utls->tls conversion / utls parse                              */
+    size_t uxlen;                   /* length of the UX address produced last                                            */
+    int ux_rv, ux_err;              /* result of the last tls->ux mapping (xcm_addr_ux_make)                             */
+} xv_adr;
+#define xv_addr_ptr xv_adr.ptr
+#define xv_addr_len xv_adr.len
+#define xv_addr_rv xv_adr.rv
+#define xv_addr_errno xv_adr.err
+#define xv_uxaddr_len xv_adr.uxlen
+#define xv_uxmake_rv xv_adr.ux_rv
+#define xv_uxmake_errno xv_adr.ux_err
 
 void *nondet_voidp(void);
 static inline void xv_utls_havoc(void)
 {
     xv_sub_created = nondet_long(); xv_sub_destroyed = nondet_long(); xv_sub_owing = nondet_long(); xv_sub_live = nondet_long();
-    xv_sub_leaked = nondet_long(); xv_op_seq = nondet_long(); xv_won_kind = nondet_int();
+    xv_sub_leaked = nondet_long(); xv_op_seq = nondet_long(); xv_won_kind = nondet_int(); xv_init_parent_ux = nondet_voidp(); xv_init_parent_tls = nondet_voidp();
     xv_io_calls = nondet_long(); xv_io_op = nondet_int(); xv_io_sock = nondet_voidp(); xv_io_buf = nondet_voidp();
     xv_io_len = nondet_size_t(); xv_io_ret = nondet_int(); xv_io_errno = nondet_int(); xv_io_c = nondet_uchar();
     xv_cnt_calls = nondet_long(); xv_cnt_ret = nondet_long(); xv_cnt_arg = nondet_int(); xv_cnt_sock = nondet_voidp();
@@ -89,7 +110,7 @@ static inline void xv_utls_havoc(void)
      
     xv_proto_ux = nondet_voidp(); xv_proto_tls = nondet_voidp();
     xv_addr_ptr = nondet_voidp(); xv_addr_len = nondet_size_t(); xv_addr_rv = nondet_int(); xv_addr_errno = nondet_int();
-    xv_uxaddr_len = nondet_size_t();
+    xv_uxaddr_len = nondet_size_t(); xv_uxmake_rv = nondet_int(); xv_uxmake_errno = nondet_int();
 }
 
 #define XV_GC_MAX (1L << 40)
@@ -136,7 +157,7 @@ __CPROVER_ensures(__CPROVER_return_value->proto == proto && __CPROVER_return_val
 __CPROVER_ensures(SUB_ST(__CPROVER_return_value, XV_ST_CREATED) && \
                   XS(__CPROVER_return_value)->kind == (proto == xv_proto_ux ? XV_K_UX : proto == xv_proto_tls ? XV_K_TLS : 0) && \
                   XS(__CPROVER_return_value)->closes == 0 && XS(__CPROVER_return_value)->cleanups == 0 && XS(__CPROVER_return_value)->tries == 0 && \
-                  XS(__CPROVER_return_value)->updates == 0 && XS(__CPROVER_return_value)->fins == 0 && XS(__CPROVER_return_value)->parent == NULL)
+                  XS(__CPROVER_return_value)->updates == 0 && XS(__CPROVER_return_value)->fins == 0)
 __CPROVER_ensures(xv_sub_created == __CPROVER_old(xv_sub_created) + 1)
 ;
 
@@ -150,8 +171,9 @@ __CPROVER_ensures(xv_sub_created == __CPROVER_old(xv_sub_created) + 1)
 #endif
 int xcm_tp_socket_init(struct xcm_socket *s, struct xcm_socket *parent)
 __CPROVER_requires(s != NULL && SUB_ST(s, XV_ST_CREATED) && XV_SUB_CNT_OK)
-__CPROVER_assigns(xv_errno, XS(s)->st, XS(s)->parent, xv_sub_owing)
-__CPROVER_ensures(UT_INIT_RV(__CPROVER_return_value) && XS(s)->parent == parent)
+__CPROVER_assigns(xv_errno, XS(s)->st, xv_sub_owing)
+__CPROVER_assigns(XS(s)->kind == XV_K_UX: xv_init_parent_ux; XS(s)->kind == XV_K_TLS: xv_init_parent_tls)
+__CPROVER_ensures(UT_INIT_RV(__CPROVER_return_value) && (XS(s)->kind == XV_K_UX ==> xv_init_parent_ux == parent) && (XS(s)->kind == XV_K_TLS ==> xv_init_parent_tls == parent))
 __CPROVER_ensures(__CPROVER_return_value == 0 ? (SUB_ST(s, XV_ST_INIT) && xv_sub_owing == __CPROVER_old(xv_sub_owing) + 1) \
                                               : (SUB_ST(s, XV_ST_FAILED) && xv_sub_owing == __CPROVER_old(xv_sub_owing)))
 ;
@@ -180,8 +202,8 @@ __CPROVER_ensures(SUB_OP_ENSURES(s, __CPROVER_return_value) && XS(s)->addr0 == l
 /* the server sub-socket must be a live one; it stays as it is */
 int xcm_tp_socket_accept(struct xcm_socket *conn_s, struct xcm_socket *server_s)
 __CPROVER_requires(SUB_OP_REQUIRES(conn_s) && server_s != NULL && SUB_ST(server_s, XV_ST_LIVE))
-__CPROVER_assigns(SUB_OP_ASSIGNS(conn_s), XS(conn_s)->from)
-__CPROVER_ensures(SUB_OP_ENSURES(conn_s, __CPROVER_return_value) && XS(conn_s)->from == server_s)
+__CPROVER_assigns(SUB_OP_ASSIGNS(conn_s), XS(conn_s)->from_kind)
+__CPROVER_ensures(SUB_OP_ENSURES(conn_s, __CPROVER_return_value) && XS(conn_s)->from_kind == XS(server_s)->kind)
 ;
 
 /* close / cleanup: NULL is a no-op; otherwise the socket must OWE a close: initialised or live -- NOT after a failed
@@ -313,8 +335,9 @@ __CPROVER_ensures(__CPROVER_return_value == 0 && *port != 0)
 int xcm_addr_ux_make(const char *ux_name, char *ux_addr_s, size_t capacity)
 __CPROVER_requires(ux_name == xv_addr_ptr + 4 && xv_addr_len >= UT_TLS_ADDR_MIN && xv_addr_len <= UT_TLS_ADDR_MAX)
 __CPROVER_requires(capacity == XCM_ADDR_MAX + 1 && __CPROVER_w_ok(ux_addr_s, capacity))
-__CPROVER_assigns(xv_errno, xv_uxaddr_len, __CPROVER_object_upto(ux_addr_s, capacity))
+__CPROVER_assigns(xv_errno, xv_uxaddr_len, xv_uxmake_rv, xv_uxmake_errno, __CPROVER_object_upto(ux_addr_s, capacity))
 __CPROVER_ensures(__CPROVER_return_value == 0 || (__CPROVER_return_value == -1 && (xv_errno == EINVAL || xv_errno == ENAMETOOLONG)))
+__CPROVER_ensures(xv_uxmake_rv == __CPROVER_return_value && xv_uxmake_errno == xv_errno)
 __CPROVER_ensures(xv_addr_len - 4 <= UT_UX_NAME_MAX ==> __CPROVER_return_value == 0)
 __CPROVER_ensures(__CPROVER_return_value == 0 ==> (xv_uxaddr_len == xv_addr_len - 1 && ux_addr_s[0] == 'u' && ux_addr_s[1] == 'x' && ux_addr_s[2] == ':'))
 ;
@@ -333,7 +356,7 @@ __CPROVER_ensures(__CPROVER_return_value == 0 ==> (xv_uxaddr_len == xv_addr_len 
 #define UT_D(c, d) ((c) == __CPROVER_old(c) + (d))       /* counter c moved by d */
 #define UT_ACCOUNT(dcreated, ddestroyed, dowing, dlive) (UT_D(xv_sub_created, dcreated) && UT_D(xv_sub_destroyed, ddestroyed) && UT_D(xv_sub_owing, dowing) && \
                                                          UT_D(xv_sub_live, dlive) && UT_D(xv_sub_leaked, 0))
-#define UT_ACC_ASSIGNS xv_sub_created, xv_sub_destroyed, xv_sub_owing, xv_sub_live, xv_sub_leaked, xv_op_seq, xv_won_kind
+#define UT_ACC_ASSIGNS xv_acc
 
 /* ---- get_proto / ux_proto / tls_proto: protocol lookup with a per-protocol cache in a function-local static -------------- */
 #define UT_PROTO_OF(name) ((name)[0] == 'u' ? xv_proto_ux : xv_proto_tls)
@@ -363,7 +386,7 @@ __CPROVER_ensures(__CPROVER_return_value == xv_proto_tls)
 /* ---- utls_init --------------------------------------------------------------------------------------------------- */
 static int utls_init(struct xcm_socket *s, struct xcm_socket *parent)
 __CPROVER_requires(__CPROVER_is_fresh(s, UT_SIZE) && (parent != NULL ==> __CPROVER_is_fresh(parent, UT_SIZE)) && UT_GHOSTS(0, 0))
-__CPROVER_assigns(xv_errno, UT_ACC_ASSIGNS, UT(s)->ux_socket, UT(s)->tls_socket)
+__CPROVER_assigns(xv_errno, UT_ACC_ASSIGNS, UT(s)->ux_socket, UT(s)->tls_socket, xv_init_parent_ux, xv_init_parent_tls)
 __CPROVER_ensures(UT_INIT_RV(__CPROVER_return_value))
 /* PO[C08] utls_init.two_new_sub_sockets: success = two NEW objects (distinct from each other and from everything else) */
 __CPROVER_ensures(__CPROVER_return_value == 0 ==> (__CPROVER_is_fresh(NU(s), SUB_SIZE) && __CPROVER_is_fresh(NT(s), SUB_SIZE)))
@@ -380,8 +403,8 @@ __CPROVER_ensures(__CPROVER_return_value == 0 ==> (NU(s)->type == s->type && NT(
 __CPROVER_ensures(__CPROVER_return_value == 0 ==> (!NU(s)->is_blocking && !NT(s)->is_blocking && !NU(s)->auto_update && !NT(s)->auto_update && \
                                                    !NU(s)->auto_enable_ctl && !NT(s)->auto_enable_ctl))
 __CPROVER_ensures(__CPROVER_return_value == 0 ==> (NU(s)->proto == xv_proto_ux && NT(s)->proto == xv_proto_tls))
-__CPROVER_ensures(__CPROVER_return_value == 0 ==> (XS(NU(s))->parent == (parent != NULL ? UT(parent)->ux_socket : NULL) && \
-                                                   XS(NT(s))->parent == (parent != NULL ? UT(parent)->tls_socket : NULL)))
+__CPROVER_ensures(__CPROVER_return_value == 0 ==> (xv_init_parent_ux == (parent != NULL ? UT(parent)->ux_socket : NULL) && \
+                                                   xv_init_parent_tls == (parent != NULL ? UT(parent)->tls_socket : NULL)))
 ;
 
 /* ---- a UTLS socket between init and connect/server/accept: both sub-sockets exist and are initialised ----------- */
@@ -400,10 +423,41 @@ __CPROVER_ensures(__CPROVER_return_value == 0 ==> (XS(NU(s))->parent == (parent 
                             SUB_ST(OU(s), XV_ST_DESTROYED) && XS(OU(s))->closes + XS(OU(s))->tries == 1)) && \
         XS(OU(s))->cleanups == 0 && XS(OT(s))->cleanups == 0)
 
+/* ---- deinit: both sub-sockets (those that still exist) are destroyed and both fields cleared.  It closes nothing: whoever calls it
+ * must have closed what owed a close -- a sub-socket destroyed while it owes one is counted in xv_sub_leaked.
+ * Shapes as for utls_close (a -D of the job): @both (default), @ux, @tls, @null */
+#define UT_DEINIT_SUB_REQ(p) (__CPROVER_is_fresh(p, SUB_SIZE) && XS(p)->st >= XV_ST_CREATED && XS(p)->st <= XV_ST_CLOSED)
+#define UT_OWED(old_st) (((old_st) == XV_ST_INIT || (old_st) == XV_ST_LIVE) ? 1 : 0)
+#define UT_DEINIT_SUB_OWED(s, f) UT_OWED(__CPROVER_old(XS(UT(s)->f)->st))
+#if defined(UT_SHAPE_NULL)
+#define UT_DEINIT_REQ(s) (__CPROVER_is_fresh(s, UT_SIZE) && UT(s)->ux_socket == NULL && UT(s)->tls_socket == NULL)
+#define UT_DEINIT_ASSIGNS(s) __CPROVER_assigns(xv_acc, UT(s)->ux_socket, UT(s)->tls_socket)
+#define UT_DEINIT_DONE(s) (UT_D(xv_sub_destroyed, 0) && UT_D(xv_sub_leaked, 0))
+#elif defined(UT_SHAPE_UX)
+#define UT_DEINIT_REQ(s) (__CPROVER_is_fresh(s, UT_SIZE) && UT_DEINIT_SUB_REQ(UT(s)->ux_socket) && UT(s)->tls_socket == NULL)
+#define UT_DEINIT_ASSIGNS(s) __CPROVER_assigns(xv_acc, UT(s)->ux_socket, UT(s)->tls_socket, XS(UT(s)->ux_socket)->st)
+#define UT_DEINIT_DONE(s) (SUB_ST(OU(s), XV_ST_DESTROYED) && UT_D(xv_sub_destroyed, 1) && UT_D(xv_sub_leaked, UT_DEINIT_SUB_OWED(s, ux_socket)))
+#elif defined(UT_SHAPE_TLS)
+#define UT_DEINIT_REQ(s) (__CPROVER_is_fresh(s, UT_SIZE) && UT_DEINIT_SUB_REQ(UT(s)->tls_socket) && UT(s)->ux_socket == NULL)
+#define UT_DEINIT_ASSIGNS(s) __CPROVER_assigns(xv_acc, UT(s)->ux_socket, UT(s)->tls_socket, XS(UT(s)->tls_socket)->st)
+#define UT_DEINIT_DONE(s) (SUB_ST(OT(s), XV_ST_DESTROYED) && UT_D(xv_sub_destroyed, 1) && UT_D(xv_sub_leaked, UT_DEINIT_SUB_OWED(s, tls_socket)))
+#else
+#define UT_DEINIT_REQ(s) (__CPROVER_is_fresh(s, UT_SIZE) && UT_DEINIT_SUB_REQ(UT(s)->ux_socket) && UT_DEINIT_SUB_REQ(UT(s)->tls_socket))
+#define UT_DEINIT_ASSIGNS(s) __CPROVER_assigns(xv_acc, UT(s)->ux_socket, UT(s)->tls_socket, XS(UT(s)->ux_socket)->st, XS(UT(s)->tls_socket)->st)
+#define UT_DEINIT_DONE(s) (SUB_ST(OU(s), XV_ST_DESTROYED) && SUB_ST(OT(s), XV_ST_DESTROYED) && UT_D(xv_sub_destroyed, 2) && \
+                           UT_D(xv_sub_leaked, UT_DEINIT_SUB_OWED(s, ux_socket) + UT_DEINIT_SUB_OWED(s, tls_socket)))
+#endif
+static void deinit(struct xcm_socket *s)
+__CPROVER_requires(UT_DEINIT_REQ(s) && UT_GHOSTS(0, 0))
+UT_DEINIT_ASSIGNS(s)
+/* PO[C08] deinit.destroys_each_once_and_forgets_them: every sub-socket that exists is destroyed exactly once and both fields are cleared (no dangling pointer, no second destroy later); closing is the caller's duty, and what still owed a close is counted as leaked */
+__CPROVER_ensures(NU(s) == NULL && NT(s) == NULL && UT_DEINIT_DONE(s) && UT_D(xv_sub_created, 0) && UT_D(xv_sub_owing, 0) && UT_D(xv_sub_live, 0))
+;
+
 /* ---- utls_connect -------------------------------------------------------------------------------------------------- */
 static int utls_connect(struct xcm_socket *s, const char *remote_addr)
 __CPROVER_requires(UT_PRISTINE_REQ(s) && __CPROVER_is_fresh(remote_addr, 8) && UT_GHOSTS(2, 0))
-__CPROVER_assigns(xv_errno, UT_ACC_ASSIGNS, UT_SUBS_ASSIGNS(s), xv_addr_ptr, xv_addr_len, xv_addr_rv, xv_addr_errno, xv_uxaddr_len)
+__CPROVER_assigns(xv_errno, UT_ACC_ASSIGNS, UT_SUBS_ASSIGNS(s), xv_adr)
 __CPROVER_ensures(__CPROVER_return_value == 0 || (__CPROVER_return_value == -1 && xv_errno > 0))
 /* PO[C01,C08] utls_connect.exactly_one_leg: success = exactly one sub-socket left, live; the other closed (unless its own connect failed) and destroyed */
 __CPROVER_ensures(__CPROVER_return_value == 0 ==> (UT_ONE_LEG(s) && UT_ACCOUNT(0, 1, -1, 1)))
@@ -420,13 +474,14 @@ __CPROVER_ensures(XS(OU(s))->tries <= 1 && XS(OT(s))->tries <= 1 && (xv_addr_rv 
 __CPROVER_ensures((XS(OU(s))->tries == 1 ==> XS(OU(s))->addr0 == 'u') && (XS(OT(s))->tries == 1 ==> XS(OT(s))->addr0 == 't'))
 /* the errno of a failure is that of the step that failed (close and destroy leave errno alone) */
 __CPROVER_ensures(__CPROVER_return_value == -1 ==> (xv_addr_rv != 0 ? xv_errno == xv_addr_errno : \
-                                                    XS(OT(s))->tries == 1 ? xv_errno == XS(OT(s))->op_errno : xv_errno == XS(OU(s))->op_errno))
+                                                    XS(OT(s))->tries == 1 ? xv_errno == XS(OT(s))->op_errno : \
+                                                    XS(OU(s))->tries == 1 ? xv_errno == XS(OU(s))->op_errno : xv_errno == xv_uxmake_errno))
 ;
 
 /* ---- utls_server --------------------------------------------------------------------------------------------------- */
 static int utls_server(struct xcm_socket *s, const char *local_addr)
 __CPROVER_requires(UT_PRISTINE_REQ(s) && __CPROVER_is_fresh(local_addr, 8) && UT_GHOSTS(2, 0))
-__CPROVER_assigns(xv_errno, UT_ACC_ASSIGNS, UT_SUBS_ASSIGNS(s), xv_addr_ptr, xv_addr_len, xv_addr_rv, xv_addr_errno, xv_uxaddr_len)
+__CPROVER_assigns(xv_errno, UT_ACC_ASSIGNS, UT_SUBS_ASSIGNS(s), xv_adr)
 __CPROVER_ensures(__CPROVER_return_value == 0 || (__CPROVER_return_value == -1 && xv_errno > 0))
 /* PO[C08] utls_server.success_both_live: both sub-servers are the old objects, bound, never closed; nothing created or destroyed */
 __CPROVER_ensures(__CPROVER_return_value == 0 ==> (NU(s) == OU(s) && NT(s) == OT(s) && SUB_ST(NU(s), XV_ST_LIVE) && SUB_ST(NT(s), XV_ST_LIVE) && \
@@ -443,7 +498,8 @@ __CPROVER_ensures(XS(OU(s))->tries <= 1 && XS(OT(s))->tries <= 1 && (xv_addr_rv 
                   (XS(OU(s))->tries == 1 ==> (XS(OT(s))->tries == 1 && XS(OT(s))->op_rv == 0 && XS(OT(s))->op_seq < XS(OU(s))->op_seq)) && \
                   (XS(OU(s))->tries == 1 ==> XS(OU(s))->addr0 == 'u') && (XS(OT(s))->tries == 1 ==> XS(OT(s))->addr0 == 't'))
 __CPROVER_ensures(__CPROVER_return_value == -1 ==> (xv_addr_rv != 0 ? xv_errno == xv_addr_errno : \
-                                                    XS(OU(s))->tries == 1 ? xv_errno == XS(OU(s))->op_errno : xv_errno == XS(OT(s))->op_errno))
+                                                    XS(OU(s))->tries == 1 ? xv_errno == XS(OU(s))->op_errno : \
+                                                    XS(OT(s))->op_rv != 0 ? xv_errno == XS(OT(s))->op_errno : xv_errno == xv_uxmake_errno))
 ;
 
 /* ---- utls_accept --------------------------------------------------------------------------------------------------- */
@@ -460,9 +516,9 @@ __CPROVER_ensures(__CPROVER_return_value == 0 ==> (UT_ONE_LEG(conn_s) && UT_ACCO
 __CPROVER_ensures(__CPROVER_return_value == -1 ==> UT_NOTHING_LEFT(conn_s))
 /* each leg accepts from the sub-server of its own kind; UX is asked first, TLS only if UX had nothing / failed */
 /* PO[C01] utls_accept.pairs_legs */
-__CPROVER_ensures(XS(OU(conn_s))->tries == 1 && XS(OU(conn_s))->from == UT(server_s)->ux_socket && \
+__CPROVER_ensures(XS(OU(conn_s))->tries == 1 && XS(OU(conn_s))->from_kind == XV_K_UX && \
                   XS(OT(conn_s))->tries == (XS(OU(conn_s))->op_rv == 0 ? 0 : 1) && \
-                  (XS(OT(conn_s))->tries == 1 ==> (XS(OT(conn_s))->from == UT(server_s)->tls_socket && XS(OU(conn_s))->op_seq < XS(OT(conn_s))->op_seq)))
+                  (XS(OT(conn_s))->tries == 1 ==> (XS(OT(conn_s))->from_kind == XV_K_TLS && XS(OU(conn_s))->op_seq < XS(OT(conn_s))->op_seq)))
 __CPROVER_ensures(__CPROVER_return_value == -1 ==> xv_errno == XS(OT(conn_s))->op_errno)
 ;
 
